@@ -806,6 +806,10 @@ impl<'a> GeneratorState<'a> {
             Expr::Integer(i) => Ok(ExprType::Immediate(!*i)),
             _ => { 
                 let left = self.generate_expr(expr, pos, false, false)?;
+                if let ExprType::Immediate(v) = left {
+                    // A constant operand: complement the whole value, not only its low byte
+                    return Ok(ExprType::Immediate(!v));
+                }
                 let right = ExprType::Immediate(0xff);
                 self.generate_arithm(&left, &Operation::Xor(false), &right, pos, false)
             },
